@@ -76,6 +76,9 @@ func c10Gen(r *rand.Rand, tier string) []Case {
 		"mal # kind=delayed op=ce u=1 x=10", "mal # kind=delayed op=ce u=1 x=10 spell=lower", "mal # kind=delayed op=drain u=1 x=0",
 		"mal # kind=delayed op=ce u=1 x=10 spell=upper", "mal # kind=delayed op=ce u=1 x=10 spell=nox", "mal # kind=delayed op=drain u=1 x=0",
 		"ce 1 1 1 half # spell=lower", "ce 1 1 2 half # spell=nox", "ce 1 2 1 all # spell=upper"})
+	// fixed case: a token that is honest while an escrow builds up and then runs its transfers backwards
+	out = append(out, Case{"preset 0 0 500 0 0 0 0 0", "preset 1 1 0 0 0 500 0 0", "mal # kind=reverser op=ce u=1 x=100", "mal # kind=reverser op=flip u=1 x=0",
+		"mal # kind=reverser op=ce u=2 x=100", "mal # kind=reverser op=cc u=1 x=30", "mal # kind=reverser op=ce u=1 x=50"})
 	// fixed case (recorded finding): the same token sent to the module address directly — the hook converts it without
 	// looking for Approval events — and the approved address empties the escrow
 	out = append(out, Case{"preset 0 0 500 0 0 0 0 0", "preset 1 1 0 0 0 500 0 0", "mal # kind=delayed op=tr u=1 x=200", "mal # kind=delayed op=drain u=1 x=0"})
@@ -477,6 +480,13 @@ func c10Exec(c Case) (outs []string, fails []Failure, tags []string) {
 						p.contract = deploy(1, contracts.ERC20MaliciousDelayedContract, big.NewInt(1_000_000))
 					case "direct":
 						p.contract = deploy(1, contracts.ERC20DirectBalanceManipulationContract, big.NewInt(1_000_000))
+					case "reverser":
+						// a token that keeps real balances and behaves honestly until it is flipped; afterwards its `transfer`
+						// runs backwards (debits the recipient, credits the caller) and still returns true
+						p.contract = c10DeployReverser(deploy)
+						if ok, _ := ethTx(env.ctx, 1, &p.contract, []byte{0x12, 0x49, 0xc5, 0x8b}); !ok { // mint(): 1e6 tokens to the caller
+							panic("reverser mint failed")
+						}
 					default:
 						p.contract = c10DeployForger(env, deploy)
 					}
@@ -499,6 +509,8 @@ func c10Exec(c Case) (outs []string, fails []Failure, tags []string) {
 						cm.ContractAddress = c10Spell(p.contract, kv["spell"])
 					}
 					ok = route(cctx, cm) == nil
+				case "flip":
+					ok, _ = ethTx(cctx, 1, &p.contract, []byte{0xde, 0xad, 0xbe, 0xef})
 				case "drain":
 					// the address the delayed-malicious token secretly approves takes what it can out of the module's escrow
 					thief := common.HexToAddress("0x4dC6ac40Af078661fc43823086E1513635Eeab14")
@@ -574,6 +586,55 @@ func c10IBCRecv(ctx sdk.Context, app *haqqapp.Haqq, denom string, to sdk.AccAddr
 		return true
 	}
 	return false
+}
+
+// c10DeployReverser deploys a hand-assembled token with real balances (slot = holder address; slot 0 = mode):
+// name / symbol / decimals, balanceOf, mint() (1e6 to the caller), transfer(to, x) — honest while the mode is 0, backwards
+// (recipient debited, caller credited) once any other selector has been called.
+func c10DeployReverser(deploy func(int, evmtypes.CompiledContract, ...interface{}) common.Address) common.Address {
+	a := newAsm()
+	sel := func(b ...byte) *asm { return a.op(0x80).op(append([]byte{0x63}, b...)...).op(0x14) } // DUP1 PUSH4 sel EQ
+	a.push1(0).op(0x35).push1(0xe0).op(0x1c)
+	sel(0x06, 0xfd, 0xde, 0x03).pushl("str").op(0x57)
+	sel(0x95, 0xd8, 0x9b, 0x41).pushl("str").op(0x57)
+	sel(0x31, 0x3c, 0xe5, 0x67).pushl("dec").op(0x57)
+	sel(0x70, 0xa0, 0x82, 0x31).pushl("bal").op(0x57)
+	sel(0xa9, 0x05, 0x9c, 0xbb).pushl("xfer").op(0x57)
+	sel(0x12, 0x49, 0xc5, 0x8b).pushl("mint").op(0x57)
+	a.push1(1).push1(0).op(0x55, 0x00) // any other call: mode := 1
+	a.label("bal")
+	a.push1(4).op(0x35, 0x54).push1(0).op(0x52).push1(0x20).push1(0).op(0xf3)
+	a.label("mint")
+	a.op(0x62, 0x0f, 0x42, 0x40, 0x33, 0x54, 0x01, 0x33, 0x55, 0x00) // PUSH3 1e6 CALLER SLOAD ADD CALLER SSTORE STOP
+	a.label("xfer")
+	a.push1(0x24).op(0x35).push1(4).op(0x35) // [x, to]
+	a.push1(0).op(0x54).pushl("rev").op(0x57)
+	a.op(0x33).pushl("move").op(0x56) // honest: from = caller
+	a.label("rev")
+	a.op(0x33, 0x90) // reversed: dest = caller, from = to
+	a.label("move")   // [x, dest, from]
+	a.op(0x80, 0x54)  // DUP1 SLOAD            [x, dest, from, balF]
+	a.op(0x83, 0x81)  // DUP4 DUP2             [.., balF, x, balF]
+	a.op(0x10).pushl("fail").op(0x57) // LT (balF < x) → fail
+	a.op(0x83, 0x90, 0x03) // DUP4 SWAP1 SUB   [x, dest, from, balF-x]
+	a.op(0x90, 0x55)  // SWAP1 SSTORE          [x, dest]
+	a.op(0x80, 0x54)  // DUP1 SLOAD            [x, dest, balD]
+	a.op(0x82, 0x01)  // DUP3 ADD              [x, dest, balD+x]
+	a.op(0x90, 0x55)  // SWAP1 SSTORE          [x]
+	a.op(0x50)
+	a.push1(1).push1(0).op(0x52).push1(0x20).push1(0).op(0xf3)
+	a.label("fail")
+	a.push1(0).push1(0).op(0xfd)
+	a.label("str")
+	a.push1(0x20).push1(0).op(0x52)
+	a.push1(3).push1(0x20).op(0x52)
+	a.op(0x62, 0x52, 0x45, 0x56).push1(0xe8).op(0x1b) // "REV" << 232
+	a.push1(0x40).op(0x52)
+	a.push1(0x60).push1(0).op(0xf3)
+	a.label("dec")
+	a.push1(18).push1(0).op(0x52).push1(0x20).push1(0).op(0xf3)
+	empty, _ := abi.JSON(strings.NewReader("[]"))
+	return deploy(1, evmtypes.CompiledContract{ABI: empty, Bin: c07InitCode(a.bytes())})
 }
 
 // c10DeployForger deploys a hand-assembled token that answers name/symbol/decimals/balanceOf and, on any other call,
